@@ -44,7 +44,9 @@ EXPLANATION = (
     "lint stale_loop_carry with positive/negative controls): every connection is compiled on its own.  R7 on the control-flow graph of the per-edge-group loop of "
     "NetworkGraph._generate_edge_equation: every path through one iteration that adds an equation to the operator's equation list "
     "also extends the list that `<t> = '+'.join(...)` is built from before the iteration ends (fall-through, continue, break) - an "
-    "emitted input term is never left out of the target's sum.  NOT decided: "
+    "emitted input term is never left out of the target's sum.  R8 in the edge-equation generator and its private helpers no entry of "
+    "an array with the weight role is located by argmax/argmin of its signed values (only on a mask / magnitude), with synthetic "
+    "controls.  NOT decided: "
     "numerical equality of trajectories, the semantics of numpy/einsum (trusted), edge templates with more than the enumerated forms, "
     "user edge dictionaries that themselves contain source_idx/target_idx."
 )
